@@ -149,7 +149,10 @@ func isFakePool(a netip.AddrPort) bool {
 		return false
 	}
 	b := ip.As16()
-	return b[0] == 0x20 && b[1] == 0x01 && b[2] == 0x0d && b[3] == 0xb8 && b[14] == 1
+	if b[14] != 1 {
+		return false
+	}
+	return (b[0] == 0x20 && b[1] == 0x01 && b[2] == 0x0d && b[3] == 0xb8) || (b[0] == 0xfd && b[1] == 0 && b[2] == 0 && b[3] == 0) || (b[0] == 0xfe && b[1] == 0x80 && b[2] == 0 && b[3] == 0)
 }
 
 func altAddrs(i int) []netip.AddrPort {
@@ -772,7 +775,9 @@ func fakeAddrs(tp *sk.Tape, target *simNode) ([]*V4AddrPort, []*V6AddrPort, []ne
 		case 2:
 			a = netip.AddrPortFrom(netip.AddrFrom4([4]byte{192, 168, 7, byte(200 + tp.Choose(50))}), 4242)
 		case 3:
-			a = netip.AddrPortFrom(netip.AddrFrom16([16]byte{0x20, 0x01, 0x0d, 0xb8, 0, 0, 0, 0, 0, 0, 0, 0, 0, 0, 1, byte(tp.Choose(250))}), 4242)
+			// global, unique-local and link-local IPv6: one group in the candidate order (address, then port)
+			pfx := [][4]byte{{0x20, 0x01, 0x0d, 0xb8}, {0xfd, 0, 0, 0}, {0xfe, 0x80, 0, 0}, {0x20, 0x01, 0x0d, 0xb8}}[tp.Choose(4)]
+			a = netip.AddrPortFrom(netip.AddrFrom16([16]byte{pfx[0], pfx[1], pfx[2], pfx[3], 0, 0, 0, 0, 0, 0, 0, 0, 0, 0, 1, byte(tp.Choose(250))}), uint16(4242-tp.Choose(2)))
 		default:
 			a = netip.AddrPortFrom(netip.AddrFrom4([4]byte{198, 51, 100, byte(1 + tp.Choose(250))}), uint16(4000+tp.Choose(100)))
 		}
@@ -821,9 +826,12 @@ func (w *slhWorld) byzantineMessage() {
 	}
 	det := &NebulaMetaDetails{V4AddrPorts: v4, V6AddrPorts: v6}
 	v1 := tp.Chance(1, 3) && claimed.Is4()
+	plainOwner, wellFormed := true, true // exactly one owner field; decodes completely
+	var msgRelays []netip.Addr
 	switch {
 	case tp.Chance(1, 8):
 		// no owner field at all
+		plainOwner = false
 	case v1:
 		b := claimed.As4()
 		det.OldVpnAddr = binary.BigEndian.Uint32(b[:])
@@ -840,9 +848,11 @@ func (w *slhWorld) byzantineMessage() {
 			det.OldVpnAddr, det.VpnAddr = binary.BigEndian.Uint32(cl[:]), netAddrToProtoAddr(Z.vpnAddr())
 		}
 		w.stats["fault.byzantine.both-owner-fields"]++
+		plainOwner = false
 	}
 	if tp.Chance(1, 2) {
 		r := w.nodes[tp.Choose(len(w.nodes))].vpnAddr()
+		msgRelays = append(msgRelays, r)
 		if v1 {
 			b := r.As4()
 			det.OldRelayVpnAddrs = append(det.OldRelayVpnAddrs, binary.BigEndian.Uint32(b[:]))
@@ -853,6 +863,7 @@ func (w *slhWorld) byzantineMessage() {
 	msg := &NebulaMeta{Type: typ, Details: det}
 	if tp.Chance(1, 12) {
 		msg.Details = nil
+		wellFormed = false
 	}
 	b, err := msg.Marshal()
 	if err != nil {
@@ -870,6 +881,7 @@ func (w *slhWorld) byzantineMessage() {
 			b[len(b)-1-tp.Choose(len(b)/3)] ^= 0x80
 		}
 		w.stats["fault.byzantine.malformed"]++
+		wellFormed = false
 	}
 	// let whatever the target had queued before this message (punches scheduled by earlier, authorized lighthouse
 	// messages; a stalled node has not run its workers) go out first, so that what follows the probe is the probe's
@@ -936,6 +948,27 @@ func (w *slhWorld) byzantineMessage() {
 		if punched {
 			w.fail("C35", "lighthouse-punched", "%s made the lighthouse send to an address named in the message", desc)
 			return
+		}
+		if typ == NebulaMeta_HostUpdateNotification && wellFormed && plainOwner && slices.Contains(Z.f.myVpnAddrs, claimed) {
+			// an update of the sender's own entry: what the lighthouse now holds as that owner's relays is exactly what
+			// this message listed (none included: an update without relays withdraws the ones reported before)
+			var got []netip.Addr
+			lh := T.f.lightHouse
+			lh.RLock()
+			rl := lh.addrMap[claimed]
+			lh.RUnlock()
+			if rl != nil {
+				rl.RLock()
+				if c := rl.cache[Z.f.myVpnAddrs[0]]; c != nil && c.relay != nil {
+					got = slices.Clone(c.relay.relay)
+				}
+				rl.RUnlock()
+			}
+			w.stats["probe.own_update_relays_checked"]++
+			if !slices.Equal(got, msgRelays) && !(len(got) == 0 && len(msgRelays) == 0) {
+				w.fail("C37", "reported-relays-not-replaced", "%s listed relays %v; the lighthouse's entry for the sender now holds %v as reported by it", desc, msgRelays, got)
+				return
+			}
 		}
 	default:
 		authorized := zIsLHofT && (typ == NebulaMeta_HostQueryReply || typ == NebulaMeta_HostPunchNotification)
